@@ -304,6 +304,83 @@ example :
 example : (run [.startSub 1 1 100, .op 0, .startSub 2 1 100, .op 1]).ops 1 =
     .subscribe 2 1 100 (.done none) := by decide
 
+/-! ### the batch dedup (`OnEnqueue`) collapses, it never silences (added) -/
+
+/-- an enqueue only ever appends: what is in the batch stays, in place -/
+theorem enqueue_prefix (batch : List Event) (e : Event) : batch <+: enqueue batch e := by
+  unfold enqueue; split
+  · exact List.prefix_refl _
+  · exact List.prefix_append _ _
+
+/-- an event that is not a `DocChanged` is never dropped -/
+theorem enqueue_keeps_other_kinds (batch : List Event) (e : Event) (h : e.changed = false) :
+    enqueue batch e = batch ++ [e] := by
+  simp [enqueue, h]
+
+/-- a `DocChanged` is dropped only when the batch already holds TWO `DocChanged` of the same actor -/
+theorem enqueue_drop_iff (batch : List Event) (e : Event) :
+    enqueue batch e = batch ↔ (e.changed = true ∧ 2 ≤ dedupCount batch e.actor) := by
+  unfold enqueue
+  constructor
+  · intro h
+    split at h
+    · rename_i hc; simpa using hc
+    · exact absurd h (by simp)
+  · intro ⟨h1, h2⟩
+    simp [h1, h2]
+
+/-- after ANY sequence of enqueues between two flushes, every actor that published a `DocChanged` is still
+    represented by a `DocChanged` of that actor in the batch: watchers may see fewer "changed" events than were
+    published, never none -/
+theorem dedup_never_silences (es : List Event) (batch : List Event) (e : Event)
+    (he : e ∈ es) (hc : e.changed = true) :
+    ∃ e' ∈ es.foldl enqueue batch, e'.changed = true ∧ e'.actor = e.actor := by
+  induction es generalizing batch with
+  | nil => cases he
+  | cons x rest ih =>
+    simp only [List.foldl_cons]
+    have hmono : ∀ (l : List Event) (b : List Event) (y : Event), y ∈ b → y ∈ l.foldl enqueue b := by
+      intro l
+      induction l with
+      | nil => intro b y hy; exact hy
+      | cons z l ih2 =>
+        intro b y hy
+        simp only [List.foldl_cons]
+        exact ih2 _ y ((enqueue_prefix b z).subset hy)
+    rcases List.mem_cons.mp he with rfl | hr
+    · by_cases hd : 2 ≤ dedupCount batch e.actor
+      · -- dropped: two of that actor are already there
+        have hpos : 0 < (batch.filter (fun x => x.changed && x.actor == e.actor)).length := by
+          unfold dedupCount at hd; omega
+        obtain ⟨y, hy⟩ := List.exists_mem_of_length_pos hpos
+        have hy' := List.mem_filter.mp hy
+        have hyc : y.changed = true ∧ y.actor = e.actor := by simpa using hy'.2
+        exact ⟨y, hmono rest _ y ((enqueue_prefix batch e).subset hy'.1), hyc.1, hyc.2⟩
+      · have : enqueue batch e = batch ++ [e] := by
+          unfold enqueue; simp [hc]; omega
+        exact ⟨e, hmono rest _ e (by rw [this]; simp), hc, rfl⟩
+    · exact ih (enqueue batch x) hr
+
+/-- … and no actor is ever represented by more than two `DocChanged` in a batch that started within the bound -/
+theorem dedup_bound (es : List Event) (batch : List Event) (a : Nat) (h : dedupCount batch a ≤ 2) :
+    dedupCount (es.foldl enqueue batch) a ≤ 2 := by
+  induction es generalizing batch with
+  | nil => exact h
+  | cons x rest ih =>
+    simp only [List.foldl_cons]
+    apply ih
+    unfold enqueue
+    split
+    · exact h
+    · rename_i hn
+      unfold dedupCount at h hn ⊢
+      rw [List.filter_append, List.length_append]
+      by_cases hx : (x.changed && x.actor == a) = true
+      · have hxa : x.changed = true ∧ x.actor = a := by simpa using hx
+        simp only [hxa.1, Bool.true_and, decide_eq_true_eq, hxa.2] at hn
+        simp [List.filter_cons, hx]; omega
+      · simp [List.filter_cons, hx]; omega
+
 /-- dedup: the third `DocChanged` of the same actor in one batch is dropped, other kinds are not -/
 example : enqueue [ev 1 9 true, ev 2 9 true] (ev 3 9 true) = [ev 1 9 true, ev 2 9 true] ∧
     enqueue [ev 1 9 true, ev 2 9 true] (ev 3 9 false) = [ev 1 9 true, ev 2 9 true, ev 3 9 false] ∧
